@@ -19,6 +19,9 @@ func c13Opts(r *mon.RNG, i int) *gram.GenOpts {
 }
 
 func c13Child(c *mon.Child) {
+	if c.Batch == 0 {
+		c13Nested(c)
+	}
 	nInputs := c.N(150, 300)
 	for gi, h := range gram.Registry {
 		gp := buildAll(h, allKs, gi%3 == 1)
